@@ -99,7 +99,9 @@ var c18GoMods = []func(mod string) string{
 	func(m string) string { return "module " + m + "\n" },
 	func(m string) string { return "module " + m + "\n\ngo 1.20\n" },
 	func(m string) string { return "module " + m + "\r\n\r\ngo 1.20\r\n" },
-	func(m string) string { return "// a comment\n\nmodule " + m + "\n\ngo 1.20\n\nrequire example.com/x v1.0.0\n" },
+	func(m string) string {
+		return "// a comment\n\nmodule " + m + "\n\ngo 1.20\n\nrequire example.com/x v1.0.0\n"
+	},
 	func(m string) string { return "go 1.20\nmodule\t" + m + "\n" },
 	func(m string) string { return "// module not.this/one\ngo 1.17\n\nmodule   " + m + "\r\n" },
 	func(m string) string { return "module " + m },
@@ -202,9 +204,18 @@ func genC18Layout(r *Rng, base string, allowNested bool) *c18Layout {
 		}
 	}
 	// go.mod modules (local == remote by nature)
+	firstModLocal := ""
 	for k, nm := 0, r.Intn(3); k < nm; k++ {
 		depth := r.Pick([]string{"", "/deep", "/a/b/c"})
 		root := &c18Root{Kind: "mod", Local: fmt.Sprintf("%s/work%s/m%d", base, depth, k), Mod: fmt.Sprintf("example.com/m%d", k)}
+		if k == 0 {
+			firstModLocal = root.Local
+		} else if r.Bool() {
+			// a sibling module whose directory name extends another module's name
+			// (disjoint trees): api / apiv2, server / serverutil
+			root.Local = firstModLocal + r.Pick([]string{"v2", "util", "0", "~x"}) + fmt.Sprint(k)
+			l.tag("gomod-sibling-prefix")
+		}
 		root.Remote = root.Local
 		l.Roots = append(l.Roots, root)
 		v := r.Intn(len(c18GoMods))
